@@ -402,8 +402,10 @@ class FileInfo(os.PathLike):
         return {
             "path": self.path,
             "times": [
-                self.times[0].strftime("%Y-%m-%dT%H:%M:%S.%f"),
-                self.times[1].strftime("%Y-%m-%dT%H:%M:%S.%f")
+                # (isoformat pads the year to four digits, strftime("%Y") does
+                # not on every platform - from_json_dict needs four)
+                self.times[0].isoformat(timespec="microseconds"),
+                self.times[1].isoformat(timespec="microseconds")
             ],
             "attr": self.attr,
         }
